@@ -621,6 +621,26 @@ pub fn run(rep: &mut Report) {
     }
     rep.count("hostile_mixture_wire_operations", hostile_ops_n);
 
+    // the runs of key codes that the tree's source spells out, typed in every way mon_through::magic_key_histories builds
+    for h in crate::mon_through::magic_key_histories() {
+        let r = guarded(|| {
+            let mut kb = Keyboard::new(ScancodeSet2::fresh(), dyn_layout(0, 0), HandleControl::MapLettersToUnicode);
+            for op in h.iter() {
+                match op {
+                    crate::mon_through::HOp::Ev(k, s) => {
+                        let _ = kb.process_keyevent(KeyEvent::new(*k, *s));
+                    }
+                    crate::mon_through::HOp::Mode(m) => kb.set_ctrl_handling(MODES[*m]),
+                    crate::mon_through::HOp::Extra(x) => extra_kb_op!(kb, *x),
+                }
+            }
+        });
+        t.add("Keyboard::process_keyevent", h.len() as u64);
+        if let Err(p) = r {
+            let shown: Vec<String> = h.iter().map(|o| o.show()).collect();
+            t.panic("Keyboard::process_keyevent", format!("history [{}]", shown.join(", ")), &p, J::obj().with("kind", J::s("events")).with("layout", J::s(layout_name(0))).with("initial_mode", J::s("Map")).with("ops", J::strs(shown)).with("expected_last", J::s("no panic")).with("observed_last", J::s("PANIC")));
+        }
+    }
     for h in long {
         if let Ok((name, n, r)) = h.join() {
             t.add(name, n);
